@@ -29,9 +29,11 @@ def render(n, c):
         mattr = "        #[diplomat::attr(%s, disable)]\n" % d["b"]
     ind = lambda s, k: "".join(" " * k + l + "\n" for l in s.splitlines())
     return ("#[diplomat::bridge]\n" + pat_attr(c["pm"], n) + "pub mod p%d {\n" % n +
-            ind(pat_attr(c["pt"], n), 4) + tattr + "    #[diplomat::opaque]\n    pub struct T%d(pub u8);\n" % n +
+            # the opaque type is a struct or (odd n) an enum: the two are parsed by different constructors
+            ind(pat_attr(c["pt"], n), 4) + tattr + ("    #[diplomat::opaque]\n    pub struct T%d(pub u8);\n" % n if n % 2 == 0 else
+                                                   "    #[diplomat::opaque]\n    pub enum T%d {\n        A,\n        B,\n    }\n" % n) +
             ind(pat_attr(c["pi"], n), 4) + "    impl T%d {\n" % n +
-            ind(pat_attr(c["pme"], n), 8) + "        pub fn m1(&self) -> u8 { self.0 }\n" + mattr +
+            ind(pat_attr(c["pme"], n), 8) + "        pub fn m1(&self) -> u8 { 1 }\n" + mattr +
             "        pub fn m2(&self, x: u8) -> u8 { x }\n    }\n"
             "    #[diplomat::opaque]\n    pub struct U%d(pub u8);\n    impl U%d {\n        pub fn u1(&self) -> u8 { self.0 }\n    }\n}\n" % (n, n))
 
